@@ -5,7 +5,7 @@
    user information; git: only one optional 'ref' argument; archives: no
    'checksum', and a .tar.gz/.tgz path or a single 'archive' argument equal to
    'tgz'; a sub-path without empty, '.' or '..' segments. *)
-From Slug Require Import Base.Str Addr.Url Addr.Parse Addr.Policy Addr.ParseProofs.
+From Slug Require Import Base.Str Addr.Url Addr.Parse Addr.Policy Addr.ParseProofs Addr.RemoteParse Addr.RemoteTheorems.
 
 (* every string accepted by ParseRemoteSource (shorthand, any letter case,
    explicit or implied type) *)
@@ -41,6 +41,35 @@ Theorem C07_query_normal_form :
   forall l, parse_query (encode_query l) = (sort_pairs l, false).
 Proof. exact Addr.UrlProofs.parse_encode_query. Qed.
 Print Assumptions C07_query_normal_form.
+
+(* ---- conversely: addresses written in the documented grammar are accepted ----
+   [parts_ok] (Addr/RemoteParse.v): type alphanumeric, scheme a URL scheme, host / path / sub-path free of
+   characters that URL escaping rewrites, path empty or rooted without "//" or trailing "/", valid sub-path,
+   query without '#', control characters or a final '?'.  Type and scheme may be written in any letter case. *)
+Theorem C07_git_grammar_accepted :
+  forall typ scheme host path sub query, parts_ok typ scheme host path sub query ->
+    to_lower typ = s_git -> (to_lower scheme = s_https \/ to_lower scheme = s_ssh) ->
+    (query = [] \/ exists v, query = s_ref ++ c_eq :: v /\ qplain v = true) ->
+    parse_remote (remote_text typ scheme host path sub query)
+    = Ok (mkPkg s_git (parsed_url scheme host path query), sub).
+Proof. exact grammar_git_accepted. Qed.
+Print Assumptions C07_git_grammar_accepted.
+
+Theorem C07_archive_by_suffix_accepted :
+  forall scheme host path sub, parts_ok [] scheme host path sub [] -> to_lower scheme = s_https ->
+    (has_suffix path (s2l ".tgz") = true \/ has_suffix path (s2l ".tar.gz") = true) ->
+    parse_remote (remote_text [] scheme host path sub [])
+    = Ok (mkPkg s_https (parsed_url scheme host path []), sub).
+Proof. exact grammar_archive_suffix_accepted. Qed.
+Print Assumptions C07_archive_by_suffix_accepted.
+
+Theorem C07_archive_by_argument_accepted :
+  forall scheme host path sub v, parts_ok [] scheme host path sub (s_archive ++ c_eq :: v) ->
+    to_lower scheme = s_https -> (v = s_tgz \/ v = s_targz) ->
+    parse_remote (remote_text [] scheme host path sub (s_archive ++ c_eq :: v))
+    = Ok (mkPkg s_https (parsed_url scheme host path (s2l "archive=tgz")), sub).
+Proof. exact grammar_archive_argument_accepted. Qed.
+Print Assumptions C07_archive_by_argument_accepted.
 
 (* non-vacuity: accepted addresses of each shape exist, and violations of each rule are rejected *)
 Example C07_accepts :
